@@ -279,3 +279,4 @@ impl std::fmt::Debug for Response {
         }
     }
 }
+#[cfg(rjrssync_verif)] pub(crate) mod verif_hooks { include!(concat!(env!("RJRSSYNC_VERIF_HARNESS"), "/hooks_boss_doer_interface.rs")); }
